@@ -357,6 +357,20 @@ Proof.
   - eexists. split; vm_compute; reflexivity.
 Qed.
 
+(* an EMPTY position "M m(a, , b);" (repaired: former finding V06-positional-empty, the map was rejected): nothing is
+   connected and no definition other than the referenced one changes; beyond the ports the referenced definition has,
+   an unnamed one-bit port [0:0] takes the position, so that the following positions keep their index *)
+Theorem C06_full_positional_empty : forall cur ii rk fresh index s s', (rk < length (st_defs s))%nat ->
+  pos_conn cur ii rk fresh index None s = Ok s' ->
+  let rd := get_def rk s in
+  (forall k, k <> rk -> get_def k s' = get_def k s) /\ names s' = names s /\
+  (if fresh
+   then get_def rk s' = set_ports rd (ed_ports rd ++ [{| ep_name := None; ep_dir := None; ep_b := new_bundle (Some 0) (Some 0) 0 |}]) /\
+        b_lo (new_bundle (Some 0) (Some 0) 0) = 0 /\ length (b_items (new_bundle (Some 0) (Some 0) 0)) = 1%nat
+   else s' = s).
+Proof. exact pos_conn_empty_spec. Qed.
+Print Assumptions C06_full_positional_empty.
+
 (* an assign: one instance of SDN_VERILOG_ASSIGNMENT_w, w = the smaller width; pin k of o / i carries bit k (from the
    low end: datom_bits is least significant first) of the left / right side - what the statement means (former
    finding V06-assign-msb-first: pin k carried bit w-1-k) *)
